@@ -18,7 +18,8 @@ LEAN_TARGETS = ['CfVerif.Props.C04']
 PROPS_MODULES = ['CfVerif.Props.C04']
 DRIVER = 'Driver/C04.lean'
 REQUIRED_THEOREMS = ['CfVerif.C04.' + t for t in (
-    'gen_misc_routing', 'gen_channels', 'gen_misc_commands', 'gen_type_table', 'gen_set_value',
+    'gen_misc_routing', 'gen_channels', 'gen_misc_commands', 'gen_type_table', 'gen_set_value', 'gen_updater', 'gen_param_updated',
+    'gen_requests', 'gen_handlers', 'read_roundtrip_sys', 'float_overflow_raises',
     'set_value_wire_int', 'refused_without_tx', 'out_of_range_raises', 'set_value_raise_unchanged',
     'set_roundtrip', 'set_roundtrip_int', 'fanout_each_once', 'registrations_nodup',
     'one_outstanding_fifo', 'reply_attribution_partial', 'reply_attribution_counterexample',
@@ -226,6 +227,7 @@ def extract(ctx):
     g.strings('updatedValueStr', _assigned(pu, 'value_s'))
     # -- misc requests and reply handlers
     routing = None
+    req_fmts = set()
     for fn, short in MISC_FUNCS:
         f = X.find(pa, fn)
         h = _nested(f, 'new_packet_cb')
@@ -244,6 +246,7 @@ def extract(ctx):
             scf = [c for c in X.struct_calls(f) if c['fn'] == 'pack']
             X.expect(len(scf) == 1, fn + ': expected one struct.pack for the request')
             g.string(short + 'ReqFmt', scf[0]['fmt'] or '?')
+            req_fmts.add(scf[0]['fmt'] or '?')
             g.strings(short + 'ReqArgs', scf[0]['args'])
             g.string(short + 'RegisterTest', ';'.join(ast.unparse(n.test) for n in f.body if isinstance(n, ast.If) and _calls(n, 'self.cf.add_port_callback')))
         else:
@@ -292,8 +295,8 @@ def extract(ctx):
         disc = X.find(pa, '_disconnected')
         g.strings('miscDisconnect', [ast.unparse(n) for n in ast.walk(disc) if isinstance(n, ast.Assign) and 'misc' in ast.unparse(n.targets[0])])
     else:
-        for nm in ('miscReqFmt',):
-            g.string(nm, '<BH')
+        X.expect(len(req_fmts) == 1, 'the four misc requests are packed with different formats: %r' % sorted(req_fmts))
+        g.string('miscReqFmt', sorted(req_fmts)[0])
         for nm in ('miscReqArgs', 'miscSendParams', 'miscSendLocked', 'miscSendHeader', 'miscReplyCompares', 'miscReplyCommand',
                    'miscReplyIdent', 'miscReplyHandler', 'miscReplyLoopBody', 'miscReplyCalls', 'miscInit', 'miscDisconnect'):
             g.strings(nm, [])
